@@ -143,12 +143,12 @@ Lemma recover_quota_obs st :
   \/ obs_of (recover_quota st) = (rs_root st, rs_pod st, rs_ctr st, -1).
 Proof. unfold recover_quota. destruct (rs_qrec st); [left|right]; reflexivity. Qed.
 
-(* the step keeps the invariant and its observation satisfies the specification *)
-Lemma rstep_spec c st op : rcfg_wf c -> rinv c st ->
-  rinv c (rstep c st op) /\ rstep_ok c (obs_of st) op (obs_of (rstep c st op)).
+(* a round keeps the invariant and its observation satisfies the specification *)
+Lemma rround_spec c st mode fail nodeu pu hu : rcfg_wf c -> rinv c st ->
+  rinv c (rround c st mode fail nodeu pu hu)
+  /\ rround_ok c (obs_of st) mode fail nodeu pu hu (obs_of (rround c st mode fail nodeu pu hu)).
 Proof.
-  intros Hwf Hinv. destruct op as [mode fail nodeu pu hu|v]; cbn [rstep rstep_ok].
-  2:{ split; [exact Hinv | reflexivity]. }
+  intros Hwf Hinv. unfold rround, rround_ok.
   destruct (mode =? 2) eqn:E2.
   { split; [apply rinv_recover_cpusets|].
     unfold recover_cpusets. cbn [obs_of rs_root rs_pod rs_ctr rs_quota].
@@ -187,6 +187,22 @@ Proof.
       split; [exact A3|]. split; [exact A4 | exact Hq2].
 Qed.
 
+Lemma round_cfg_wf c pu : rcfg_wf c -> rcfg_wf (round_cfg c pu).
+Proof. intros H. exact H. Qed.
+Lemma round_cfg_inv c pu st : rinv c st <-> rinv (round_cfg c pu) st.
+Proof. split; intros H; exact H. Qed.
+
+(* the step keeps the invariant and its observation satisfies the specification *)
+Lemma rstep_spec c st op : rcfg_wf c -> rinv c st ->
+  rinv c (rstep c st op) /\ rstep_ok c (obs_of st) op (obs_of (rstep c st op)).
+Proof.
+  intros Hwf Hinv. destruct op as [mode fail nodeu pu hu|v]; cbn [rstep rstep_ok].
+  - destruct (rround_spec (round_cfg c pu) st mode fail nodeu (present_uses (rc_pods c) pu) hu
+                (round_cfg_wf c pu Hwf) (proj1 (round_cfg_inv c pu st) Hinv)) as [H1 H2].
+    split; [apply (round_cfg_inv c pu); exact H1 | exact H2].
+  - split; [exact Hinv | reflexivity].
+Qed.
+
 (* MAIN THEOREM for whole rounds: over any history of rounds (any interleaving of cpuset-policy,
    cfsQuota-policy and disabled rounds, rounds without pods or without metrics, external rewrites
    of the quota file), from any files satisfying the invariant, every step satisfies the
@@ -202,14 +218,14 @@ Qed.
    metrics, no cpu in the container-level cpuset is protected unless the file was left alone *)
 Corollary round_no_protected c st mode nodeu pu hu : rcfg_wf c -> rinv c st ->
   mode <> 2 -> mode <> 1 -> rc_pods c <> [] ->
-  let st' := rstep c st (RRound mode false nodeu pu hu) in
+  let st' := rround c st mode false nodeu pu hu in
   rs_ctr st' = rs_ctr st \/
   forall x, In x (rs_ctr st') ->
     In x (map cpu (rc_procs c)) /\ protected (round_ainput c 0 []) x = false.
 Proof.
   intros Hwf Hinv Hm2 Hm1 Hp st'.
-  destruct (rstep_spec c st (RRound mode false nodeu pu hu) Hwf Hinv) as [_ Hok].
-  cbn [rstep_ok] in Hok.
+  destruct (rround_spec c st mode false nodeu pu hu Hwf Hinv) as [_ Hok].
+  unfold rround_ok in Hok.
   apply Z.eqb_neq in Hm2. apply Z.eqb_neq in Hm1. rewrite Hm2 in Hok.
   destruct (rc_pods c) as [|p0 t0] eqn:Ep; [contradiction|]. rewrite Hm1 in Hok.
   destruct Hok as [b [_ Hok]]. fold st' in Hok.
@@ -228,14 +244,14 @@ Qed.
 (* under the none kubelet policy the cpuset BE runs on grows by at most the step limit per round *)
 Lemma round_growth_none c st mode fail nodeu pu hu : rcfg_wf c -> rinv c st -> rc_static c = false ->
   mode <> 1 -> mode <> 2 ->
-  lenZ (rs_ctr (rstep c st (RRound mode fail nodeu pu hu))) <= lenZ (rs_ctr st) + ceil_div (lenZ (rc_procs c)) 10.
+  lenZ (rs_ctr (rround c st mode fail nodeu pu hu)) <= lenZ (rs_ctr st) + ceil_div (lenZ (rc_procs c)) 10.
 Proof.
   intros Hwf Hinv Hs Hm1 Hm2.
   assert (Hstep : 0 <= ceil_div (lenZ (rc_procs c)) 10) by (apply ceil_div_nonneg; [lia | apply lenZ_nonneg]).
-  destruct (rstep_spec c st (RRound mode fail nodeu pu hu) Hwf Hinv) as [_ Hok].
-  cbn [rstep_ok] in Hok. apply Z.eqb_neq in Hm1. apply Z.eqb_neq in Hm2. rewrite Hm2 in Hok.
+  destruct (rround_spec c st mode fail nodeu pu hu Hwf Hinv) as [_ Hok].
+  unfold rround_ok in Hok. apply Z.eqb_neq in Hm1. apply Z.eqb_neq in Hm2. rewrite Hm2 in Hok.
   destruct (match rc_pods c with [] => true | _ => fail end).
-  { assert (He : rs_ctr (rstep c st (RRound mode fail nodeu pu hu)) = rs_ctr st).
+  { assert (He : rs_ctr (rround c st mode fail nodeu pu hu) = rs_ctr st).
     { unfold obs_of in Hok. injection Hok as _ _ H _. exact H. }
     rewrite He. lia. }
   rewrite Hm1 in Hok. destruct Hok as [b [_ Hok]].
@@ -396,41 +412,48 @@ Proof.
   - intros H. inversion H. auto.
 Qed.
 
+Lemma rround_code_spec c prev mode fail nodeu pu hu o :
+  rround_code c prev mode fail nodeu pu hu o = 0 <-> rround_ok c prev mode fail nodeu pu hu o.
+Proof.
+  unfold rround_code, rround_ok.
+  destruct o as [[[root podd] ctr] q].
+  destruct (mode =? 2).
+  { pose proof (eq_listZ_spec podd root) as Hpr. pose proof (eq_listZ_spec ctr root) as Hcr.
+    pose proof (clean_setb_spec (round_ainput c 0 []) root) as Hcl.
+    split.
+    - intros H.
+      destruct (eq_listZ podd root && eq_listZ ctr root) eqn:B; cbn [negb] in H; [|discriminate].
+      destruct (clean_setb (round_ainput c 0 []) root) eqn:C; cbn [negb] in H; [|discriminate].
+      destruct ((q =? snd prev) || (q =? -1)) eqn:Q; cbn [negb] in H; [|discriminate].
+      apply andb_true_iff in B. destruct B as [B1 B2].
+      split; [apply Hpr; exact B1|]. split; [apply Hcr; exact B2|]. split; [apply Hcl; reflexivity|].
+      apply orb_true_iff in Q. destruct Q as [Q|Q]; apply Z.eqb_eq in Q; [left|right]; exact Q.
+    - intros [H1 [H2 [H3 H4]]]. apply Hpr in H1. apply Hcr in H2. apply Hcl in H3. rewrite H1, H2, H3.
+      cbn [andb negb].
+      assert (Q : (q =? snd prev) || (q =? -1) = true).
+      { apply orb_true_iff. destruct H4 as [H4|H4]; [left|right]; apply Z.eqb_eq; exact H4. }
+      rewrite Q. reflexivity. }
+  destruct (match rc_pods c with [] => true | _ => fail end).
+  { pose proof (eq_obs_cpusets_spec (root, podd, ctr, q) prev) as He.
+    destruct prev as [[[r0 p0] k0] q0]. cbn [snd fst] in *.
+    split.
+    - intros H. destruct (eq_obs_cpusets (root, podd, ctr, q) (r0, p0, k0, q0)) eqn:E; cbn [andb] in H; [|discriminate].
+      destruct (q =? q0) eqn:Q; [|discriminate]. apply Z.eqb_eq in Q. subst q.
+      destruct He as [He _]. specialize (He eq_refl). rewrite He. reflexivity.
+    - intros H. inversion H. subst.
+      destruct He as [_ He]. rewrite (He eq_refl). rewrite Z.eqb_refl. reflexivity. }
+  rewrite first_ok_spec by apply budget_candidates_ne.
+  split.
+  + intros [b [Hb Hc]]. exists b. split; [apply budget_candidates_spec; exact Hb|].
+    destruct (mode =? 1); [apply quota_round_code_spec | apply cpuset_round_code_spec]; exact Hc.
+  + intros [b [Hb Hc]]. exists b. split; [apply budget_candidates_spec; exact Hb|].
+    destruct (mode =? 1); [apply quota_round_code_spec | apply cpuset_round_code_spec]; exact Hc.
+Qed.
+
 Lemma rstep_code_spec c prev op o : rstep_code c prev op o = 0 <-> rstep_ok c prev op o.
 Proof.
   destruct op as [mode fail nodeu pu hu|v]; cbn [rstep_code rstep_ok].
-  - destruct o as [[[root podd] ctr] q].
-    destruct (mode =? 2).
-    { pose proof (eq_listZ_spec podd root) as Hpr. pose proof (eq_listZ_spec ctr root) as Hcr.
-      pose proof (clean_setb_spec (round_ainput c 0 []) root) as Hcl.
-      split.
-      - intros H.
-        destruct (eq_listZ podd root && eq_listZ ctr root) eqn:B; cbn [negb] in H; [|discriminate].
-        destruct (clean_setb (round_ainput c 0 []) root) eqn:C; cbn [negb] in H; [|discriminate].
-        destruct ((q =? snd prev) || (q =? -1)) eqn:Q; cbn [negb] in H; [|discriminate].
-        apply andb_true_iff in B. destruct B as [B1 B2].
-        split; [apply Hpr; exact B1|]. split; [apply Hcr; exact B2|]. split; [apply Hcl; reflexivity|].
-        apply orb_true_iff in Q. destruct Q as [Q|Q]; apply Z.eqb_eq in Q; [left|right]; exact Q.
-      - intros [H1 [H2 [H3 H4]]]. apply Hpr in H1. apply Hcr in H2. apply Hcl in H3. rewrite H1, H2, H3.
-        cbn [andb negb].
-        assert (Q : (q =? snd prev) || (q =? -1) = true).
-        { apply orb_true_iff. destruct H4 as [H4|H4]; [left|right]; apply Z.eqb_eq; exact H4. }
-        rewrite Q. reflexivity. }
-    destruct (match rc_pods c with [] => true | _ => fail end).
-    { pose proof (eq_obs_cpusets_spec (root, podd, ctr, q) prev) as He.
-      destruct prev as [[[r0 p0] k0] q0]. cbn [snd fst] in *.
-      split.
-      - intros H. destruct (eq_obs_cpusets (root, podd, ctr, q) (r0, p0, k0, q0)) eqn:E; cbn [andb] in H; [|discriminate].
-        destruct (q =? q0) eqn:Q; [|discriminate]. apply Z.eqb_eq in Q. subst q.
-        destruct He as [He _]. specialize (He eq_refl). rewrite He. reflexivity.
-      - intros H. inversion H. subst.
-        destruct He as [_ He]. rewrite (He eq_refl). rewrite Z.eqb_refl. reflexivity. }
-    rewrite first_ok_spec by apply budget_candidates_ne.
-    split.
-    + intros [b [Hb Hc]]. exists b. split; [apply budget_candidates_spec; exact Hb|].
-      destruct (mode =? 1); [apply quota_round_code_spec | apply cpuset_round_code_spec]; exact Hc.
-    + intros [b [Hb Hc]]. exists b. split; [apply budget_candidates_spec; exact Hb|].
-      destruct (mode =? 1); [apply quota_round_code_spec | apply cpuset_round_code_spec]; exact Hc.
+  - apply rround_code_spec.
   - destruct o as [[[root podd] ctr] q].
     pose proof (eq_obs_cpusets_spec (root, podd, ctr, q) prev) as He. cbn [fst] in He.
     split.
